@@ -323,7 +323,7 @@ impl<const H: usize> Reader<H> {
     ) -> Result<Record<'_, H>, ReadError> {
         let record_header_buf = self
             .read_ahead_buf
-            .read(&self.file, offset, RECORD_HEAD_SIZE)?;
+            .read(&self.file, offset, RECORD_HEAD_SIZE, flushed_offset)?;
 
         if is_truncation_marker(&record_header_buf[..RECORD_HEAD_SIZE]) {
             return Err(ReadError::TruncationMarker { offset });
@@ -355,7 +355,7 @@ impl<const H: usize> Reader<H> {
 
         let payload = self
             .read_ahead_buf
-            .read(&self.file, payload_offset, payload_len)?;
+            .read(&self.file, payload_offset, payload_len, flushed_offset)?;
 
         let header = &payload[..H];
         let compressed_data = &payload[H..];
@@ -604,7 +604,13 @@ impl ReadAheadBuf {
         self.valid_len = 0;
     }
 
-    fn read(&mut self, file: &File, offset: u64, length: usize) -> Result<&[u8], ReadError> {
+    fn read(
+        &mut self,
+        file: &File,
+        offset: u64,
+        length: usize,
+        flushed_offset: u64,
+    ) -> Result<&[u8], ReadError> {
         let end_offset = offset + length as u64;
 
         // If offset is within the valid read-ahead range
@@ -614,7 +620,7 @@ impl ReadAheadBuf {
         }
 
         // Fill the read-ahead buffer for the requested offset & length
-        self.fill(file, offset, length)?;
+        self.fill(file, offset, length, flushed_offset)?;
 
         // Ensure we now have enough valid data
         if offset < self.offset || end_offset > (self.offset + self.valid_len as u64) {
@@ -629,7 +635,13 @@ impl ReadAheadBuf {
         Ok(&self.buf[start..start + length])
     }
 
-    fn fill(&mut self, file: &File, offset: u64, mut length: usize) -> Result<(), ReadError> {
+    fn fill(
+        &mut self,
+        file: &File,
+        offset: u64,
+        mut length: usize,
+        flushed_offset: u64,
+    ) -> Result<(), ReadError> {
         let end_offset = offset + length as u64;
 
         // Set the new read-ahead offset aligned to 64KB
@@ -647,10 +659,15 @@ impl ReadAheadBuf {
             self.buf.shrink_to_fit();
         }
 
+        // Never cache bytes at or beyond the flushed offset: they may still change
+        let limit = required_size.min(flushed_offset.saturating_sub(self.offset) as usize);
+
         let mut total_read = 0;
-        while total_read < required_size {
-            let bytes_read =
-                file.read_at(&mut self.buf[total_read..], self.offset + total_read as u64)?;
+        while total_read < limit {
+            let bytes_read = file.read_at(
+                &mut self.buf[total_read..limit],
+                self.offset + total_read as u64,
+            )?;
             if bytes_read == 0 {
                 break; // EOF reached
             }
